@@ -198,14 +198,14 @@ Proof.
   all: try (eexists; eexists; split; [reflexivity | lia]).
 Qed.
 
-Lemma tdepth_nonneg : forall D t, (0 <= tdepth D t)%Z.
+Lemma tdepth_nonneg : forall D t, (0 <= tdepth_t D t)%Z.
 Proof.
-  intros D t. induction t using wtree_ind'; cbn [tdepth]; try lia.
-  - assert (0 <= fold_right (fun x m => Z.max (tdepth D x) m) 0 l)%Z by (clear; induction l; simpl; lia). lia.
-  - assert (0 <= fold_right (fun x m => Z.max (tdepth D x) m) 0 l)%Z by (clear; induction l; simpl; lia). lia.
-  - assert (0 <= fold_right (fun kv m => Z.max (Z.max (tdepth D (fst kv)) (tdepth D (snd kv))) m) 0 l)%Z by (clear; induction l; simpl; lia). lia.
-  - assert (0 <= fold_right (fun kv m => Z.max (Z.max (tdepth D (fst kv)) (tdepth D (snd kv))) m) 0 l)%Z by (clear; induction l; simpl; lia). lia.
-  - destruct ((t =? 55799) || do_skiptags D); lia.
+  intros D t. induction t using wtree_ind'; cbn [tdepth_t]; try lia.
+  - assert (0 <= fold_right (fun x m => Z.max (tdepth_t D x) m) 0 l)%Z by (clear; induction l; simpl; lia). lia.
+  - assert (0 <= fold_right (fun x m => Z.max (tdepth_t D x) m) 0 l)%Z by (clear; induction l; simpl; lia). lia.
+  - assert (0 <= fold_right (fun kv m => Z.max (Z.max (tdepth_t D (fst kv)) (tdepth_t D (snd kv))) m) 0 l)%Z by (clear; induction l; simpl; lia). lia.
+  - assert (0 <= fold_right (fun kv m => Z.max (Z.max (tdepth_t D (fst kv)) (tdepth_t D (snd kv))) m) 0 l)%Z by (clear; induction l; simpl; lia). lia.
+  - destruct (t =? 0); [lia |]. destruct ((t =? 55799) || do_skiptags D); lia.
 Qed.
 
 (* ------------------------------------------------------------------ *)
@@ -223,8 +223,8 @@ Lemma ser_len_pos : forall t, (1 <= length (ser t))%nat.
 Proof. destruct t; cbn [ser app]; unfold shead; cbn [app length]; lia. Qed.
 
 Definition dec_ok (D : dopts) (t : wtree) : Prop :=
-  forall f d r rest, (2 * length (ser t) + 1 <= f)%nat -> (d + tdepth D t < maxdepth D)%Z ->
-  fst (dec D f d r (ser t ++ rest)) = Ok (go_of D (data_of t), rest).
+  forall f d r rest, (2 * length (ser t) + 1 <= f)%nat -> (d + tdepth_t D t < maxdepth D)%Z ->
+  fst (dec D f d r (ser t ++ rest)) = Ok (go_of_t D (data_of t), rest).
 
 Lemma arr_def_S : forall D f' d r n b,
   arr_def D (S f') d r n b =
@@ -240,9 +240,9 @@ Proof. reflexivity. Qed.
 
 Lemma arr_def_ser : forall D l, Forall (dec_ok D) l ->
   forall f d r rest, (2 * length (flat_map ser l) + 2 <= f)%nat ->
-  (d + fold_right (fun x m => Z.max (tdepth D x) m) 0 l < maxdepth D)%Z ->
+  (d + fold_right (fun x m => Z.max (tdepth_t D x) m) 0 l < maxdepth D)%Z ->
   fst (arr_def D f d r (N.of_nat (length l)) (flat_map ser l ++ rest))
-  = Ok (map (fun t => go_of D (data_of t)) l, rest).
+  = Ok (map (fun t => go_of_t D (data_of t)) l, rest).
 Proof.
   intros D l H. induction H as [| x l Hx Hl IH]; intros f d r rest Hf Hd.
   - destruct f; [simpl in Hf; lia |]. rewrite arr_def_S. reflexivity.
@@ -257,9 +257,9 @@ Qed.
 
 Lemma arr_indef_ser : forall D l, Forall (dec_ok D) l -> Forall twf l ->
   forall f d r rest, (2 * length (flat_map ser l) + 2 <= f)%nat ->
-  (d + fold_right (fun x m => Z.max (tdepth D x) m) 0 l < maxdepth D)%Z ->
+  (d + fold_right (fun x m => Z.max (tdepth_t D x) m) 0 l < maxdepth D)%Z ->
   fst (arr_indef D f d r (flat_map ser l ++ 255 :: rest))
-  = Ok (map (fun t => go_of D (data_of t)) l, rest).
+  = Ok (map (fun t => go_of_t D (data_of t)) l, rest).
 Proof.
   intros D l H. induction H as [| x l Hx Hl IH]; intros Hw f d r rest Hf Hd.
   - destruct f; [simpl in Hf; lia |]. cbn [flat_map app]. rewrite arr_indef_S. reflexivity.
@@ -293,11 +293,11 @@ Proof. reflexivity. Qed.
 Lemma map_entry_ser : forall D k v, dec_ok D k -> dec_ok D v -> twf v ->
   forall f' d r seen rest,
   (2 * length (ser k) + 1 <= f')%nat -> (2 * length (ser v) + 1 <= f')%nat ->
-  (d + tdepth D k < maxdepth D)%Z -> (d + tdepth D v < maxdepth D)%Z ->
-  hashable (keynorm (go_of D (data_of k))) = true ->
-  existsb (key_eqb (keynorm (go_of D (data_of k)))) seen = false ->
+  (d + tdepth_t D k < maxdepth D)%Z -> (d + tdepth_t D v < maxdepth D)%Z ->
+  hashable (keynorm (go_of_t D (data_of k))) = true ->
+  existsb (key_eqb (keynorm (go_of_t D (data_of k)))) seen = false ->
   fst (map_entry (dec D f') d r seen (ser k ++ ser v ++ rest))
-  = Ok (keynorm (go_of D (data_of k)), go_of D (data_of v), rest).
+  = Ok (keynorm (go_of_t D (data_of k)), go_of_t D (data_of v), rest).
 Proof.
   intros D k v Hk Hv Hwv f' d r seen rest Hfk Hfv Hdk Hdv Hh Hs.
   unfold map_entry.
@@ -310,16 +310,16 @@ Qed.
 
 Definition pair_ser (kv : wtree * wtree) : list N := ser (fst kv) ++ ser (snd kv).
 Definition pair_go (D : dopts) (kv : wtree * wtree) : item * item :=
-  (keynorm (go_of D (data_of (fst kv))), go_of D (data_of (snd kv))).
+  (keynorm (go_of_t D (data_of (fst kv))), go_of_t D (data_of (snd kv))).
 Definition pair_depth (D : dopts) (kv : wtree * wtree) (m : Z) : Z :=
-  Z.max (Z.max (tdepth D (fst kv)) (tdepth D (snd kv))) m.
+  Z.max (Z.max (tdepth_t D (fst kv)) (tdepth_t D (snd kv))) m.
 
 Lemma map_def_ser : forall D l,
   Forall (fun kv => dec_ok D (fst kv) /\ dec_ok D (snd kv)) l ->
   Forall (fun kv => twf (fst kv) /\ twf (snd kv)) l ->
   forall f d r seen rest, (2 * length (flat_map pair_ser l) + 2 <= f)%nat ->
   (d + fold_right (pair_depth D) 0 l < maxdepth D)%Z ->
-  keys_ok D seen l ->
+  keys_ok_t D seen l ->
   fst (map_def D f d r (N.of_nat (length l)) seen (flat_map pair_ser l ++ rest))
   = Ok (map (pair_go D) l, rest).
 Proof.
@@ -331,7 +331,7 @@ Proof.
     cbn [flat_map] in *. unfold pair_ser at 1 in Hf. unfold pair_ser at 1.
     rewrite !app_length in Hf. rewrite <- !app_assoc. cbn [fold_right] in Hd. unfold pair_depth at 1 in Hd.
     pose proof (ser_len_pos (fst kv)) as Hp1. pose proof (ser_len_pos (snd kv)) as Hp2.
-    cbn [keys_ok] in Hkeys. destruct Hkeys as (Hh & Hs & Hkeys).
+    cbn [keys_ok_t] in Hkeys. destruct Hkeys as (Hh & Hs & Hkeys).
     erewrite fst_bindI by (apply map_entry_ser; try assumption; lia). cbv beta iota. cbn [fst].
     replace (N.of_nat (length (kv :: l)) - 1) with (N.of_nat (length l)) by (cbn [length]; lia).
     erewrite fst_bindI by (apply IH; [assumption | lia | lia | exact Hkeys]). reflexivity.
@@ -342,7 +342,7 @@ Lemma map_indef_ser : forall D l,
   Forall (fun kv => twf (fst kv) /\ twf (snd kv)) l ->
   forall f d r seen rest, (2 * length (flat_map pair_ser l) + 2 <= f)%nat ->
   (d + fold_right (pair_depth D) 0 l < maxdepth D)%Z ->
-  keys_ok D seen l ->
+  keys_ok_t D seen l ->
   fst (map_indef D f d r seen (flat_map pair_ser l ++ 255 :: rest))
   = Ok (map (pair_go D) l, rest).
 Proof.
@@ -353,7 +353,7 @@ Proof.
     cbn [flat_map] in *. unfold pair_ser at 1 in Hf. unfold pair_ser at 1.
     rewrite !app_length in Hf. rewrite <- !app_assoc. cbn [fold_right] in Hd. unfold pair_depth at 1 in Hd.
     pose proof (ser_len_pos (fst kv)) as Hp1. pose proof (ser_len_pos (snd kv)) as Hp2.
-    cbn [keys_ok] in Hkeys. destruct Hkeys as (Hh & Hs & Hkeys).
+    cbn [keys_ok_t] in Hkeys. destruct Hkeys as (Hh & Hs & Hkeys).
     destruct (ser_hd (fst kv) Hwk) as (bd & tl & E & Hne).
     assert (E2 : ser (fst kv) ++ ser (snd kv) ++ flat_map pair_ser l ++ 255 :: rest
                  = bd :: (tl ++ ser (snd kv) ++ flat_map pair_ser l ++ 255 :: rest)) by (rewrite E; reflexivity).
@@ -419,33 +419,90 @@ Proof.
   reflexivity.
 Qed.
 
+(* tag 0 content: DecodeStringAsBytes on a byte / text string of any form *)
+Lemma text_of_data : forall t s, text_of t = Some s ->
+  match data_of t with DText s' | DBytes s' => time_item s' | _ => INil end = time_item s.
+Proof. intros t s H. destruct t; cbn [text_of] in H; try discriminate; inversion H; subst; reflexivity. Qed.
+
+Lemma dec_bytes_fresh_head : forall D f hd b1, (1 <= f)%nat -> hd / 32 = 2 \/ hd / 32 = 3 ->
+  dec_bytes_fresh D f (hd :: b1) = dec_str_body f hd b1.
+Proof.
+  intros D f hd b1 Hf Hm. unfold dec_bytes_fresh.
+  assert (N1 : (hd =? bdNil) = false) by (apply N.eqb_neq; intro E; rewrite E in Hm; destruct Hm as [Hm | Hm]; vm_compute in Hm; discriminate).
+  assert (N2 : (hd =? bdUndefined) = false) by (apply N.eqb_neq; intro E; rewrite E in Hm; destruct Hm as [Hm | Hm]; vm_compute in Hm; discriminate).
+  rewrite N1, N2. cbn [orb].
+  assert (E : (if do_skiptags D then skip_tags f hd b1 else Ok (hd, b1)) = Ok (hd, b1)).
+  { destruct (do_skiptags D); [| reflexivity]. destruct f; [lia |]. cbn [skip_tags].
+    replace (hd / 32 =? majTag) with false; [reflexivity |].
+    symmetry. apply N.eqb_neq. change majTag with 6. lia. }
+  rewrite E. cbn [bind].
+  replace ((hd / 32 =? majBytes) || (hd / 32 =? majString)) with true; [reflexivity |].
+  symmetry. change majBytes with 2. change majString with 3. destruct Hm as [-> | ->]; reflexivity.
+Qed.
+
+Lemma dec_bytes_fresh_str : forall D t s f rest, twf t -> lib_supports_t D t -> text_of t = Some s ->
+  (2 * length (ser t) <= f)%nat -> dec_bytes_fresh D f (ser t ++ rest) = Ok (s, rest).
+Proof.
+  intros D t s f rest Hw Hs Ht Hf. pose proof (ser_len_pos t) as Hp.
+  destruct t; cbn [text_of] in Ht; try discriminate; inversion Ht; subst; clear Ht;
+    cbn [ser twf lib_supports_t] in *.
+  - destruct Hw as [Hw _]. rewrite shead_cons. rewrite <- app_assoc. cbn [app].
+    pose proof (ai_of_le _ _ Hw).
+    rewrite dec_bytes_fresh_head by (try lia; left; apply hd_div; lia).
+    unfold dec_str_body.
+    rewrite (head_neq 2 _ bdIndefBytes), (head_neq 2 _ bdIndefString) by (assumption || reflexivity). cbn [orb].
+    rewrite hd_mod by lia. rewrite dec_len_head by assumption. cbn [bind]. apply take_app.
+  - cbn [app]. rewrite dec_bytes_fresh_head by (try lia; left; reflexivity).
+    unfold dec_str_body. change ((95 =? bdIndefBytes) || (95 =? bdIndefString)) with true. cbv iota. change (95 / 32) with 2.
+    change (flat_map (fun c => shead 2 (fst c) (N.of_nat (length (snd c))) ++ snd c) cs) with (flat_map (chunk_ser 2) cs) in *.
+    rewrite <- app_assoc. cbn [app]. apply dec_chunks_ser; [assumption | assumption |].
+    cbn [length] in Hf. rewrite !app_length in Hf. cbn [length] in Hf.
+    assert (length cs <= length (flat_map (chunk_ser 2) cs))%nat
+      by (apply flat_len_ge; intros; unfold chunk_ser; rewrite shead_cons; cbn [app length]; lia).
+    lia.
+  - destruct Hw as [Hw _]. rewrite shead_cons. rewrite <- app_assoc. cbn [app].
+    pose proof (ai_of_le _ _ Hw).
+    rewrite dec_bytes_fresh_head by (try lia; right; apply hd_div; lia).
+    unfold dec_str_body.
+    rewrite (head_neq 3 _ bdIndefBytes), (head_neq 3 _ bdIndefString) by (assumption || reflexivity). cbn [orb].
+    rewrite hd_mod by lia. rewrite dec_len_head by assumption. cbn [bind]. apply take_app.
+  - cbn [app]. rewrite dec_bytes_fresh_head by (try lia; right; reflexivity).
+    unfold dec_str_body. change ((127 =? bdIndefBytes) || (127 =? bdIndefString)) with true. cbv iota. change (127 / 32) with 3.
+    change (flat_map (fun c => shead 3 (fst c) (N.of_nat (length (snd c))) ++ snd c) cs) with (flat_map (chunk_ser 3) cs) in *.
+    rewrite <- app_assoc. cbn [app]. apply dec_chunks_ser; [assumption | assumption |].
+    cbn [length] in Hf. rewrite !app_length in Hf. cbn [length] in Hf.
+    assert (length cs <= length (flat_map (chunk_ser 3) cs))%nat
+      by (apply flat_len_ge; intros; unfold chunk_ser; rewrite shead_cons; cbn [app length]; lia).
+    lia.
+Qed.
+
 Lemma fold_max_nonneg {A} (g : A -> Z) : forall l, (0 <= fold_right (fun x m => Z.max (g x) m) 0 l)%Z.
 Proof. induction l; simpl; lia. Qed.
 
-Theorem dec_ser : forall D t, twf t -> lib_supports D t -> dec_ok D t.
+Theorem dec_ser : forall D t, twf t -> lib_supports_t D t -> dec_ok D t.
 Proof.
   intros D t. induction t using wtree_ind'; intros Hw Hs f d r rest Hf Hd;
     (destruct f as [| f']; [exfalso; lia |]).
   - (* TUint *)
-    cbn [ser twf lib_supports data_of go_of] in *. rewrite shead_cons. cbn [app]. rewrite dec_S. unfold dec_body.
+    cbn [ser twf lib_supports_t data_of go_of_t] in *. rewrite shead_cons. cbn [app]. rewrite dec_S. unfold dec_body.
     pose proof (ai_of_le _ _ Hw). rewrite kind_head, hd_mod by lia. rewrite (proj1 kind_vals). cbv iota.
     rewrite fst_liftI, read_uint_head by assumption. cbn [bind].
     destruct (do_signed D); [| reflexivity].
     rewrite int64v_pos by (apply Hs; reflexivity). reflexivity.
   - (* TNint *)
-    cbn [ser twf lib_supports data_of go_of] in *. rewrite shead_cons. cbn [app]. rewrite dec_S. unfold dec_body.
+    cbn [ser twf lib_supports_t data_of go_of_t] in *. rewrite shead_cons. cbn [app]. rewrite dec_S. unfold dec_body.
     pose proof (ai_of_le _ _ Hw). rewrite kind_head, hd_mod by lia. rewrite (proj1 (proj2 kind_vals)). cbv iota.
     rewrite fst_liftI, read_uint_head by assumption. cbn [bind].
     rewrite int64v_neg by assumption. reflexivity.
   - (* TBytes *)
-    cbn [ser twf lib_supports data_of go_of] in *. destruct Hw as [Hw _]. rewrite shead_cons. rewrite <- app_assoc. cbn [app].
+    cbn [ser twf lib_supports_t data_of go_of_t] in *. destruct Hw as [Hw _]. rewrite shead_cons. rewrite <- app_assoc. cbn [app].
     rewrite dec_S. unfold dec_body.
     pose proof (ai_of_le _ _ Hw). rewrite kind_head by lia. rewrite (proj1 (proj2 (proj2 kind_vals))). cbv iota.
     rewrite fst_liftI. unfold dec_str_body.
     rewrite (head_neq 2 _ bdIndefBytes), (head_neq 2 _ bdIndefString) by (assumption || reflexivity). cbn [orb].
     rewrite hd_mod by lia. rewrite dec_len_head by assumption. cbn [bind]. rewrite take_app. reflexivity.
   - (* TBytesI *)
-    cbn [ser twf lib_supports data_of go_of] in *. cbn [app]. rewrite dec_S. unfold dec_body.
+    cbn [ser twf lib_supports_t data_of go_of_t] in *. cbn [app]. rewrite dec_S. unfold dec_body.
     change (kind_of 95) with KBytes. cbv iota. rewrite fst_liftI. unfold dec_str_body.
     change ((95 =? bdIndefBytes) || (95 =? bdIndefString)) with true. cbv iota. change (95 / 32) with 2.
     change (flat_map (fun c => shead 2 (fst c) (N.of_nat (length (snd c))) ++ snd c) cs) with (flat_map (chunk_ser 2) cs).
@@ -456,14 +513,14 @@ Proof.
       by (apply flat_len_ge; intros; rewrite shead_cons; cbn [app length]; lia).
     lia.
   - (* TText *)
-    cbn [ser twf lib_supports data_of go_of] in *. destruct Hw as [Hw _]. rewrite shead_cons. rewrite <- app_assoc. cbn [app].
+    cbn [ser twf lib_supports_t data_of go_of_t] in *. destruct Hw as [Hw _]. rewrite shead_cons. rewrite <- app_assoc. cbn [app].
     rewrite dec_S. unfold dec_body.
     pose proof (ai_of_le _ _ Hw). rewrite kind_head by lia. rewrite (proj1 (proj2 (proj2 (proj2 kind_vals)))). cbv iota.
     rewrite fst_liftI. unfold dec_str_body.
     rewrite (head_neq 3 _ bdIndefBytes), (head_neq 3 _ bdIndefString) by (assumption || reflexivity). cbn [orb].
     rewrite hd_mod by lia. rewrite dec_len_head by assumption. cbn [bind]. rewrite take_app. reflexivity.
   - (* TTextI *)
-    cbn [ser twf lib_supports data_of go_of] in *. cbn [app]. rewrite dec_S. unfold dec_body.
+    cbn [ser twf lib_supports_t data_of go_of_t] in *. cbn [app]. rewrite dec_S. unfold dec_body.
     change (kind_of 127) with KText. cbv iota. rewrite fst_liftI. unfold dec_str_body.
     change ((127 =? bdIndefBytes) || (127 =? bdIndefString)) with true. cbv iota. change (127 / 32) with 3.
     change (flat_map (fun c => shead 3 (fst c) (N.of_nat (length (snd c))) ++ snd c) cs) with (flat_map (chunk_ser 3) cs).
@@ -474,7 +531,7 @@ Proof.
       by (apply flat_len_ge; intros; rewrite shead_cons; cbn [app length]; lia).
     lia.
   - (* TArr *)
-    cbn [ser twf lib_supports data_of go_of tdepth] in *. destruct Hw as [Hw Hwl]. destruct Hs as [Hsl Hlen].
+    cbn [ser twf lib_supports_t data_of go_of_t tdepth_t] in *. destruct Hw as [Hw Hwl]. destruct Hs as [Hsl Hlen].
     apply fix_Forall in Hwl. apply fix_Forall in Hsl.
     assert (Hok : Forall (dec_ok D) l).
     { rewrite Forall_forall in *. intros x Hx. apply H; auto. }
@@ -483,25 +540,25 @@ Proof.
     rewrite (head_neq 4 _ bdIndefArray) by (assumption || reflexivity).
     rewrite hd_mod by lia.
     erewrite fst_bindI by (rewrite fst_liftI; apply dec_len_head; assumption). cbv beta iota.
-    pose proof (fold_max_nonneg (tdepth D) l) as Hnn.
+    pose proof (fold_max_nonneg (tdepth_t D) l) as Hnn.
     replace (depth_ok D d) with true by (symmetry; unfold depth_ok; apply Z.ltb_lt; lia).
     rewrite app_length, shead_cons in Hf. cbn [length] in Hf.
     erewrite fst_bindI by (apply arr_def_ser; [assumption | lia | lia]). cbv beta iota.
     rewrite map_map. reflexivity.
   - (* TArrI *)
-    cbn [ser twf lib_supports data_of go_of tdepth] in *. destruct Hs as [Hsl Hlen].
+    cbn [ser twf lib_supports_t data_of go_of_t tdepth_t] in *. destruct Hs as [Hsl Hlen].
     apply fix_Forall in Hw. apply fix_Forall in Hsl.
     assert (Hok : Forall (dec_ok D) l).
     { rewrite Forall_forall in *. intros x Hx. apply H; auto. }
     cbn [app]. rewrite dec_S. unfold dec_body.
     change (kind_of 159) with KArr. cbv iota. change (159 =? bdIndefArray) with true. cbv iota.
-    pose proof (fold_max_nonneg (tdepth D) l) as Hnn.
+    pose proof (fold_max_nonneg (tdepth_t D) l) as Hnn.
     replace (depth_ok D d) with true by (symmetry; unfold depth_ok; apply Z.ltb_lt; lia).
     rewrite !app_length in Hf. cbn [length] in Hf. rewrite <- app_assoc. cbn [app].
     erewrite fst_bindI by (apply arr_indef_ser; [assumption | assumption | lia | lia]). cbv beta iota.
     rewrite map_map. reflexivity.
   - (* TMap *)
-    cbn [ser twf lib_supports data_of go_of tdepth] in *. destruct Hw as [Hw Hwl]. destruct Hs as (Hsl & Hkeys & Hlen).
+    cbn [ser twf lib_supports_t data_of go_of_t tdepth_t] in *. destruct Hw as [Hw Hwl]. destruct Hs as (Hsl & Hkeys & Hlen).
     apply fix_Forall2 in Hwl. apply fix_Forall2 in Hsl.
     assert (Hok : Forall (fun kv => dec_ok D (fst kv) /\ dec_ok D (snd kv)) l).
     { rewrite Forall_forall in *. intros x Hx. specialize (H x Hx). specialize (Hwl x Hx). specialize (Hsl x Hx). split; [apply (proj1 H) | apply (proj2 H)]; tauto. }
@@ -510,60 +567,67 @@ Proof.
     rewrite (head_neq 5 _ bdIndefMap) by (assumption || reflexivity).
     rewrite hd_mod by lia.
     erewrite fst_bindI by (rewrite fst_liftI; apply dec_len_head; assumption). cbv beta iota.
-    pose proof (fold_max_nonneg (fun kv => Z.max (tdepth D (fst kv)) (tdepth D (snd kv))) l) as Hnn.
+    pose proof (fold_max_nonneg (fun kv => Z.max (tdepth_t D (fst kv)) (tdepth_t D (snd kv))) l) as Hnn.
     replace (depth_ok D d) with true by (symmetry; unfold depth_ok; apply Z.ltb_lt; lia).
     rewrite app_length, shead_cons in Hf. cbn [length] in Hf.
     change (flat_map (fun kv => ser (fst kv) ++ ser (snd kv)) l) with (flat_map pair_ser l) in *.
     erewrite fst_bindI by (apply map_def_ser; [assumption | assumption | lia | exact ltac:(unfold pair_depth; lia) | assumption]).
     cbv beta iota. rewrite map_map. reflexivity.
   - (* TMapI *)
-    cbn [ser twf lib_supports data_of go_of tdepth] in *. destruct Hs as (Hsl & Hkeys & Hlen).
+    cbn [ser twf lib_supports_t data_of go_of_t tdepth_t] in *. destruct Hs as (Hsl & Hkeys & Hlen).
     apply fix_Forall2 in Hw. apply fix_Forall2 in Hsl.
     assert (Hok : Forall (fun kv => dec_ok D (fst kv) /\ dec_ok D (snd kv)) l).
     { rewrite Forall_forall in *. intros x Hx. specialize (H x Hx). specialize (Hw x Hx). specialize (Hsl x Hx). split; [apply (proj1 H) | apply (proj2 H)]; tauto. }
     cbn [app]. rewrite dec_S. unfold dec_body.
     change (kind_of 191) with KMap. cbv iota. change (191 =? bdIndefMap) with true. cbv iota.
-    pose proof (fold_max_nonneg (fun kv => Z.max (tdepth D (fst kv)) (tdepth D (snd kv))) l) as Hnn.
+    pose proof (fold_max_nonneg (fun kv => Z.max (tdepth_t D (fst kv)) (tdepth_t D (snd kv))) l) as Hnn.
     replace (depth_ok D d) with true by (symmetry; unfold depth_ok; apply Z.ltb_lt; lia).
     rewrite !app_length in Hf. cbn [length] in Hf. rewrite <- app_assoc. cbn [app].
     change (flat_map (fun kv => ser (fst kv) ++ ser (snd kv)) l) with (flat_map pair_ser l) in *.
     erewrite fst_bindI by (apply map_indef_ser; [assumption | assumption | lia | exact ltac:(unfold pair_depth; lia) | assumption]).
     cbv beta iota. rewrite map_map. reflexivity.
   - (* TTag *)
-    cbn [ser twf lib_supports data_of go_of tdepth] in *. destruct Hw as [Hw Hwv]. destruct Hs as [Ht Hsv].
+    cbn [ser twf lib_supports_t data_of go_of_t tdepth_t] in *. destruct Hw as [Hw Hwv].
     rewrite shead_cons. rewrite <- app_assoc. cbn [app]. rewrite dec_S. unfold dec_body.
     pose proof (ai_of_le _ _ Hw). rewrite kind_head by lia.
     rewrite (proj1 (proj2 (proj2 (proj2 (proj2 (proj2 (proj2 kind_vals))))))). cbv iota.
     rewrite hd_mod by lia.
     erewrite fst_bindI by (rewrite fst_liftI; apply read_uint_head; assumption). cbv beta iota.
-    rewrite dec_tag_plain by assumption.
     rewrite app_length, shead_cons in Hf. cbn [length] in Hf.
-    pose proof (tdepth_nonneg D t0) as Hnn.
-    destruct ((t =? 55799) || do_skiptags D).
-    + apply IHt; [assumption | assumption | lia | lia].
-    + replace (depth_ok D d) with true by (symmetry; unfold depth_ok; apply Z.ltb_lt; lia).
-      erewrite fst_bindI by (apply IHt; [assumption | assumption | lia | lia]). reflexivity.
+    destruct Hs as [[Ht Hsv] | (Ht & Hsv & Htx)].
+    + replace (t =? 0) with false in * by (symmetry; apply N.eqb_neq; lia).
+      rewrite dec_tag_plain by assumption.
+      pose proof (tdepth_nonneg D t0) as Hnn.
+      destruct ((t =? 55799) || do_skiptags D).
+      * apply IHt; [assumption | assumption | lia | lia].
+      * replace (depth_ok D d) with true by (symmetry; unfold depth_ok; apply Z.ltb_lt; lia).
+        erewrite fst_bindI by (apply IHt; [assumption | assumption | lia | lia]). reflexivity.
+    + subst t. unfold dec_tag. cbn [N.eqb]. rewrite fst_liftI.
+      destruct (text_of t0) as [s |] eqn:Etx; [| contradiction]. destruct Htx as [i Hi].
+      rewrite (dec_bytes_fresh_str D t0 s f' rest Hwv Hsv Etx) by lia. cbn [bind].
+      rewrite Hi. cbn [bind].
+      rewrite (text_of_data t0 s Etx). unfold time_item. rewrite Hi. reflexivity.
   - (* TSimple *)
-    cbn [ser twf lib_supports data_of go_of] in *. cbn [app]. rewrite dec_S. unfold dec_body.
+    cbn [ser twf lib_supports_t data_of go_of_t] in *. cbn [app]. rewrite dec_S. unfold dec_body.
     assert (C : v = 20 \/ v = 21 \/ v = 22 \/ v = 23) by lia.
     destruct C as [C | [C | [C | C]]]; subst v; reflexivity.
   - (* TSimple1 *)
-    cbn [lib_supports] in Hs. contradiction.
+    cbn [lib_supports_t] in Hs. contradiction.
   - (* THalf *)
-    cbn [ser twf lib_supports data_of go_of] in *. cbn [app]. rewrite dec_S. unfold dec_body.
+    cbn [ser twf lib_supports_t data_of go_of_t] in *. cbn [app]. rewrite dec_S. unfold dec_body.
     change (kind_of 249) with KSimple. cbv iota. unfold dec_simple.
     change ((249 =? bdNil) || (249 =? bdUndefined)) with false. change (249 =? bdFalse) with false.
     change (249 =? bdTrue) with false. change (249 =? bdFloat16) with true. cbv iota.
     rewrite fst_liftI. rewrite (take_sbe 2). cbn [bind]. rewrite be_get_put by (simpl; lia).
     rewrite half_all by assumption. reflexivity.
   - (* TSingle *)
-    cbn [ser twf lib_supports data_of go_of] in *. cbn [app]. rewrite dec_S. unfold dec_body.
+    cbn [ser twf lib_supports_t data_of go_of_t] in *. cbn [app]. rewrite dec_S. unfold dec_body.
     change (kind_of 250) with KSimple. cbv iota. unfold dec_simple.
     change ((250 =? bdNil) || (250 =? bdUndefined)) with false. change (250 =? bdFalse) with false.
     change (250 =? bdTrue) with false. change (250 =? bdFloat16) with false. change (250 =? bdFloat32) with true. cbv iota.
     rewrite fst_liftI. rewrite (take_sbe 4). cbn [bind]. rewrite be_get_put by (simpl; lia). reflexivity.
   - (* TDouble *)
-    cbn [ser twf lib_supports data_of go_of] in *. cbn [app]. rewrite dec_S. unfold dec_body.
+    cbn [ser twf lib_supports_t data_of go_of_t] in *. cbn [app]. rewrite dec_S. unfold dec_body.
     change (kind_of 251) with KSimple. cbv iota. unfold dec_simple.
     change ((251 =? bdNil) || (251 =? bdUndefined)) with false. change (251 =? bdFalse) with false.
     change (251 =? bdTrue) with false. change (251 =? bdFloat16) with false. change (251 =? bdFloat32) with false.
@@ -961,13 +1025,93 @@ Qed.
 (* ------------------------------------------------------------------ *)
 (* statements used by Properties/C10_cbor.v *)
 
-Lemma cbor_in_lemma : forall (D : dopts) (t : wtree) (rest : list N),
-  twf t -> lib_supports D t -> (tdepth D t < maxdepth D)%Z ->
-  dec_naked D (fuel_for (ser t ++ rest)) (ser t ++ rest) = Ok (go_of D (data_of t), rest).
+(* the extended vocabulary agrees with the original one wherever the original applies *)
+Lemma fold_max_ext {A} (g h : A -> Z) : forall l, (forall x, In x l -> g x = h x) ->
+  fold_right (fun x m => Z.max (g x) m) 0%Z l = fold_right (fun x m => Z.max (h x) m) 0%Z l.
+Proof. induction l; intros H; cbn [fold_right]; [reflexivity |]. rewrite H by (left; reflexivity). rewrite IHl by (intros; apply H; right; assumption). reflexivity. Qed.
+
+Lemma keys_compat : forall D l,
+  (forall kv, In kv l -> go_of_t D (data_of (fst kv)) = go_of D (data_of (fst kv))) ->
+  forall seen, keys_ok D seen l -> keys_ok_t D seen l.
+Proof.
+  intros D l. induction l as [| kv l IH]; intros He seen H; [exact I |].
+  cbn [keys_ok keys_ok_t] in *. rewrite He by (left; reflexivity). destruct H as (H1 & H2 & H3).
+  repeat split; try assumption. apply IH; [intros; apply He; right; assumption | assumption].
+Qed.
+
+Theorem compat_t : forall D t, lib_supports D t ->
+  lib_supports_t D t /\ go_of_t D (data_of t) = go_of D (data_of t) /\ tdepth_t D t = tdepth D t.
+Proof.
+  intros D t. induction t using wtree_ind'; intros Hs;
+    try (cbn [lib_supports lib_supports_t data_of go_of go_of_t tdepth tdepth_t] in *; repeat split; (assumption || reflexivity)).
+  - (* TArr *)
+    cbn [lib_supports] in Hs. destruct Hs as [Hsl Hlen]. apply fix_Forall in Hsl.
+    assert (A : forall x, In x l -> lib_supports_t D x /\ go_of_t D (data_of x) = go_of D (data_of x) /\ tdepth_t D x = tdepth D x).
+    { rewrite Forall_forall in *. intros x Hx. apply H; auto. }
+    cbn [lib_supports_t data_of go_of go_of_t tdepth tdepth_t]. repeat split.
+    + apply fix_Forall. apply Forall_forall. intros x Hx. apply A; assumption.
+    + assumption.
+    + f_equal. rewrite !map_map. apply map_ext_in. intros x Hx. apply A; assumption.
+    + f_equal. apply fold_max_ext. intros x Hx. apply A; assumption.
+  - (* TArrI *)
+    cbn [lib_supports] in Hs. destruct Hs as [Hsl Hlen]. apply fix_Forall in Hsl.
+    assert (A : forall x, In x l -> lib_supports_t D x /\ go_of_t D (data_of x) = go_of D (data_of x) /\ tdepth_t D x = tdepth D x).
+    { rewrite Forall_forall in *. intros x Hx. apply H; auto. }
+    cbn [lib_supports_t data_of go_of go_of_t tdepth tdepth_t]. repeat split.
+    + apply fix_Forall. apply Forall_forall. intros x Hx. apply A; assumption.
+    + assumption.
+    + f_equal. rewrite !map_map. apply map_ext_in. intros x Hx. apply A; assumption.
+    + f_equal. apply fold_max_ext. intros x Hx. apply A; assumption.
+  - (* TMap *)
+    cbn [lib_supports] in Hs. destruct Hs as (Hsl & Hkeys & Hlen). apply fix_Forall2 in Hsl.
+    assert (A : forall kv, In kv l ->
+      (lib_supports_t D (fst kv) /\ go_of_t D (data_of (fst kv)) = go_of D (data_of (fst kv)) /\ tdepth_t D (fst kv) = tdepth D (fst kv)) /\
+      (lib_supports_t D (snd kv) /\ go_of_t D (data_of (snd kv)) = go_of D (data_of (snd kv)) /\ tdepth_t D (snd kv) = tdepth D (snd kv))).
+    { rewrite Forall_forall in *. intros kv Hkv. destruct (H kv Hkv) as [H1 H2]. destruct (Hsl kv Hkv). split; auto. }
+    cbn [lib_supports_t data_of go_of go_of_t tdepth tdepth_t]. repeat split.
+    + apply fix_Forall2. apply Forall_forall. intros kv Hkv. destruct (A kv Hkv) as [(? & _) (? & _)]. split; assumption.
+    + apply keys_compat; [intros kv Hkv; apply (A kv Hkv) | assumption].
+    + assumption.
+    + f_equal. rewrite !map_map. apply map_ext_in. intros kv Hkv. cbn [fst snd].
+      destruct (A kv Hkv) as [(_ & E1 & _) (_ & E2 & _)]. rewrite E1, E2. reflexivity.
+    + f_equal. apply (fold_max_ext (fun kv => Z.max (tdepth_t D (fst kv)) (tdepth_t D (snd kv))) (fun kv => Z.max (tdepth D (fst kv)) (tdepth D (snd kv)))).
+      intros kv Hkv. destruct (A kv Hkv) as [(_ & _ & E1) (_ & _ & E2)]. rewrite E1, E2. reflexivity.
+  - (* TMapI *)
+    cbn [lib_supports] in Hs. destruct Hs as (Hsl & Hkeys & Hlen). apply fix_Forall2 in Hsl.
+    assert (A : forall kv, In kv l ->
+      (lib_supports_t D (fst kv) /\ go_of_t D (data_of (fst kv)) = go_of D (data_of (fst kv)) /\ tdepth_t D (fst kv) = tdepth D (fst kv)) /\
+      (lib_supports_t D (snd kv) /\ go_of_t D (data_of (snd kv)) = go_of D (data_of (snd kv)) /\ tdepth_t D (snd kv) = tdepth D (snd kv))).
+    { rewrite Forall_forall in *. intros kv Hkv. destruct (H kv Hkv) as [H1 H2]. destruct (Hsl kv Hkv). split; auto. }
+    cbn [lib_supports_t data_of go_of go_of_t tdepth tdepth_t]. repeat split.
+    + apply fix_Forall2. apply Forall_forall. intros kv Hkv. destruct (A kv Hkv) as [(? & _) (? & _)]. split; assumption.
+    + apply keys_compat; [intros kv Hkv; apply (A kv Hkv) | assumption].
+    + assumption.
+    + f_equal. rewrite !map_map. apply map_ext_in. intros kv Hkv. cbn [fst snd].
+      destruct (A kv Hkv) as [(_ & E1 & _) (_ & E2 & _)]. rewrite E1, E2. reflexivity.
+    + f_equal. apply (fold_max_ext (fun kv => Z.max (tdepth_t D (fst kv)) (tdepth_t D (snd kv))) (fun kv => Z.max (tdepth D (fst kv)) (tdepth D (snd kv)))).
+      intros kv Hkv. destruct (A kv Hkv) as [(_ & _ & E1) (_ & _ & E2)]. rewrite E1, E2. reflexivity.
+  - (* TTag *)
+    cbn [lib_supports] in Hs. destruct Hs as [Ht Hsv]. destruct (IHt Hsv) as (I1 & I2 & I3).
+    cbn [lib_supports_t data_of go_of go_of_t tdepth tdepth_t].
+    replace (t =? 0) with false by (symmetry; apply N.eqb_neq; lia).
+    rewrite I2, I3. repeat split. left. split; assumption.
+Qed.
+
+Lemma cbor_in_t_lemma : forall (D : dopts) (t : wtree) (rest : list N),
+  twf t -> lib_supports_t D t -> (tdepth_t D t < maxdepth D)%Z ->
+  dec_naked D (fuel_for (ser t ++ rest)) (ser t ++ rest) = Ok (go_of_t D (data_of t), rest).
 Proof.
   intros. unfold dec_naked. apply dec_ser; try assumption.
   all: try (unfold fuel_for; rewrite app_length; lia).
   all: lia.
+Qed.
+
+Lemma cbor_in_lemma : forall (D : dopts) (t : wtree) (rest : list N),
+  twf t -> lib_supports D t -> (tdepth D t < maxdepth D)%Z ->
+  dec_naked D (fuel_for (ser t ++ rest)) (ser t ++ rest) = Ok (go_of D (data_of t), rest).
+Proof.
+  intros D t rest Hw Hs Hd. destruct (compat_t D t Hs) as (C1 & C2 & C3).
+  rewrite <- C2. apply cbor_in_t_lemma; [assumption | assumption | lia].
 Qed.
 
 
